@@ -17,10 +17,10 @@ def run(tier):
         "where base is /base or /old_lian_workspace_runs/base; a stale workspace holds old files and two symlinks pointing out of it",
         "the workspace directory is where the option documents it: the option itself if it contains 'lian_workspace', else "
         "<option>/lian_workspace (judged on the option as given)",
-        "languages = python (.py); --nomock; no C preprocessing; not incremental",
+        "languages = python (.py); --nomock; no C preprocessing; incremental mode may delete inside its own <workspace>/bak",
         "bounded copying = at most 12 x (input paths + 12) filesystem effects and at most 600 filesystem calls",
     ]
-    r.outside += ["permissions, concurrent modification, C preprocessing (-I), incremental backup, Windows paths"]
+    r.outside += ["permissions, concurrent modification, C preprocessing (-I), Windows paths"]
     import importlib
     h = importlib.import_module(M)
     nin = len(h.IN_PATHS)
@@ -31,7 +31,11 @@ def run(tier):
         i1s = [h.ABSENT, 3]               # second input: none or "."
         for w0 in range(len(h.WS_COMPS)):
             for wabs in (0, 1, 2, 3):
-                slices.append(dict(fix=dict(w0=[w0], wabs=[wabs], w1=w1s, i1=i1s, link=[1], stale=[1])))
+                slices.append(dict(fix=dict(w0=[w0], wabs=[wabs], w1=w1s, i1=i1s, link=[1], stale=[1], force=[0, 1])))
+        # incremental runs (with and without --force) over a stale workspace whose own src / bak are links pointing out of it
+        for w0 in range(len(h.WS_COMPS)):
+            slices.append(dict(fix=dict(w0=[w0], wabs=[0, 1], w1=[h.ABSENT], i0=[0], i1=[h.ABSENT], link=[0], nested=[0], stale=[0, 1, 2], force=[2, 3])))
+            slices.append(dict(fix=dict(w0=[w0], wabs=[0], w1=[h.ABSENT], i0=[0], i1=[h.ABSENT], link=[0], nested=[0], stale=[2], force=[0, 1])))
     else:
         for w0 in range(len(h.WS_COMPS)):
             for wabs in (0, 1, 2, 3):
@@ -41,7 +45,7 @@ def run(tier):
           "check_confinement", slices=slices, pct=400 if tier == "quick" else 3000, ppt=60, twin="check_confinement_reach",
           twin_slice=dict(fix=dict(w0=[1], wabs=[0], w1=[h.ABSENT], i0=[0], i1=[h.ABSENT], force=[1])),
           bounds={"workspace option": "1..2 components over " + str(h.WS_COMPS) + ", relative or absolute",
-                  "inputs": "1..2 of " + str(h.IN_PATHS), "flags": "nested dir, symlink to a directory, stale workspace, --force"})
+                  "inputs": "1..2 of " + str(h.IN_PATHS), "flags": "nested dir, symlink to a directory, stale workspace (old files and out-pointing links / own src and bak being out-pointing links), --force, --incremental"})
     b.execute()
     r.add_sample({"workspace": "ws", "in_path": ["ws"], "force": True, "meaning": "workspace ws/lian_workspace inside the input ws"})
     r.add_sample({"workspace": "/base/xlian_workspacey", "in_path": ["in", "."], "force": True, "stale": True})
